@@ -792,6 +792,11 @@ func init() {
 		const dir = "proxy/gzip"
 		w := &c17w{x: x, dir: dir}
 		w.init()
+		// the translated function (xlate.go): regenerated from the source on every run, proved equal to the model in
+		// Props/C17Xlate.lean
+		xlateEmit(x, dir+"/gzip_handler.go", []xlSpec{
+			{"", "bodyAllowedForStatus", "XBodyAllowed", nil, []string{"p0:Int:0"}, "Bool"},
+		})
 
 		// the traces of the exported entry points
 		if fd := x.funcDecl(dir, "", "NewGzipHandler"); fd != nil {
